@@ -428,4 +428,158 @@ example : WaitAfter Gen.cfgS "SELECT a ".toList [[.single "SELECT".toList 0, .si
       [.single "SELECT".toList 0, .single ['a'] 2, .single [','] 0, .single ['b'] 2] = true :=
   ⟨waitAfterB_sound _ _ _ (by decide +kernel), by decide +kernel, by decide +kernel, by decide +kernel⟩
 
+/-! ## the doubled-quote and backslash escapes -/
+
+/-- the grammar of a string body between quotes `q`: a backslash takes the next character with it (whatever it is), a
+quote must be doubled, anything else stands for itself -/
+def strBody (q : Char) : List Char → Bool
+  | [] => true
+  | [c] => c != '\\' && c != q
+  | c :: d :: r => if c == '\\' then strBody q r else if c == q then d == q && strBody q r else strBody q (d :: r)
+
+def QK.escaped : QK → S | .sq => .IN_SINGLE_QUOTE_AFTER_5C | .dq => .IN_DOUBLE_QUOTE_AFTER_5C | .bq => .WAIT
+
+theorem s_backslash (k : QK) (hk : k ≠ .bq) : Gen.cfgS.lookup k.inside (.ch '\\') = some (addTo k.escaped) := by
+  cases k with
+  | sq => exact look (by decide +kernel)
+  | dq => exact look (by decide +kernel)
+  | bq => exact absurd rfl hk
+
+theorem s_escaped (k : QK) (hk : k ≠ .bq) (c : Char) : Gen.cfgS.lookup k.escaped (.ch c) = some (addTo k.inside) := by
+  cases k with
+  | sq =>
+    exact lookClass .IN_SINGLE_QUOTE_AFTER_5C (fun _ => true) (addTo .IN_SINGLE_QUOTE) (by decide +kernel)
+      (Or.inl (by decide +kernel)) c rfl
+  | dq =>
+    exact lookClass .IN_DOUBLE_QUOTE_AFTER_5C (fun _ => true) (addTo .IN_DOUBLE_QUOTE) (by decide +kernel)
+      (Or.inl (by decide +kernel)) c rfl
+  | bq => exact absurd rfl hk
+
+theorem s_doubled (k : QK) (hk : k ≠ .bq) : Gen.cfgS.lookup k.pending (.ch k.ch) = some (addTo k.inside) := by
+  cases k with
+  | sq => exact look (by decide +kernel)
+  | dq => exact look (by decide +kernel)
+  | bq => exact absurd rfl hk
+
+theorem ch_ne_backslash (k : QK) : k.ch ≠ '\\' := by cases k <;> decide
+
+/-- a string body with escapes, read inside the string, goes into the window entirely and leaves the lexer inside -/
+theorem body_run (k : QK) (hk : k ≠ .bq) (T : List Char) (st : Nat) (stk : List (List Tok)) :
+    ∀ (n : Nat) (body : List Char), body.length ≤ n → strBody k.ch body = true → ∀ nw,
+      feedAllWith (handle Gen.cfgS T) body ⟨st, nw, k.inside, stk⟩ = .ok ⟨st, nw + body.length, k.inside, stk⟩ := by
+  intro n
+  induction n with
+  | zero =>
+    intro body hl _ nw
+    have : body = [] := List.eq_nil_of_length_eq_zero (by omega)
+    subst this; rfl
+  | succ n ih =>
+    intro body hl hb nw
+    match body, hl, hb with
+    | [], _, _ => rfl
+    | [c], _, hb =>
+      simp only [strBody, Bool.and_eq_true, bne_iff_ne, ne_eq] at hb
+      have h1 := handle_addTo shipped_code (text := T) (m := ⟨st, nw, k.inside, stk⟩)
+        (q_body k c ⟨hb.2, fun _ => hb.1⟩)
+      rw [feedAllWith_cons_adv h1]; rfl
+    | c :: d :: r, hl, hb =>
+      simp only [List.length_cons] at hl
+      simp only [strBody] at hb
+      by_cases hc : c = '\\'
+      · subst hc
+        simp only [beq_self_eq_true, if_true] at hb
+        have h1 := handle_addTo shipped_code (text := T) (m := ⟨st, nw, k.inside, stk⟩) (s_backslash k hk)
+        have h2 := handle_addTo shipped_code (text := T) (m := ⟨st, nw + 1, k.escaped, stk⟩) (s_escaped k hk d)
+        rw [feedAllWith_cons_adv h1, feedAllWith_cons_adv h2, ih r (by omega) hb]
+        simp only [List.length_cons]; congr 2; omega
+      · have hc' : (c == '\\') = false := by simpa using hc
+        simp only [hc', Bool.false_eq_true, if_false] at hb
+        by_cases hq : c = k.ch
+        · subst hq
+          simp only [beq_self_eq_true, if_true, Bool.and_eq_true, beq_iff_eq] at hb
+          obtain ⟨hd, hr⟩ := hb
+          subst hd
+          have h1 := handle_addTo shipped_code (text := T) (m := ⟨st, nw, k.inside, stk⟩) (s_close k hk)
+          have h2 := handle_addTo shipped_code (text := T) (m := ⟨st, nw + 1, k.pending, stk⟩) (s_doubled k hk)
+          rw [feedAllWith_cons_adv h1, feedAllWith_cons_adv h2, ih r (by omega) hr]
+          simp only [List.length_cons]; congr 2; omega
+        · have hq' : (c == k.ch) = false := by simpa using hq
+          simp only [hq', Bool.false_eq_true, if_false] at hb
+          have h1 := handle_addTo shipped_code (text := T) (m := ⟨st, nw, k.inside, stk⟩)
+            (q_body k c ⟨hq, fun _ => hc⟩)
+          rw [feedAllWith_cons_adv h1, ih (d :: r) (by simp only [List.length_cons]; omega) hb]
+          simp only [List.length_cons]; congr 2; omega
+
+/-- **C06.escaped_quote**: a string whose body obeys the escape grammar `strBody` (doubled quotes, backslash + any
+character) read from between tokens, in any context, is ONE token: the whole region is pending after its closing
+quote, and at the next character other than the quote — or at the end of the text — exactly one token with the whole
+region as its source is appended. -/
+theorem escaped_quote (k : QK) (hk : k ≠ .bq) (pfx body rest : List Char) (hb : strBody k.ch body = true)
+    (f : List Tok) (fs : List (List Tok)) :
+    let T := pfx ++ k.wrap body ++ rest
+    let n' := pfx.length + (k.wrap body).length
+    feedAllWith (handle Gen.cfgS T) (k.wrap body) ⟨pfx.length, pfx.length, .WAIT, f :: fs⟩ =
+      .ok ⟨pfx.length, n', k.pending, f :: fs⟩ ∧
+    (∀ d : Char, d ≠ k.ch → handle Gen.cfgS T ⟨pfx.length, n', k.pending, f :: fs⟩ (.ch d) =
+      .ok (⟨n', n', .WAIT, (f ++ [.single (k.wrap body) k.marks]) :: fs⟩, false)) ∧
+    handle Gen.cfgS T ⟨pfx.length, n', k.pending, f :: fs⟩ .eof =
+      .ok (⟨n', n', .END, (f ++ [.single (k.wrap body) k.marks]) :: fs⟩, true) := by
+  intro T n'
+  have hm : k.marks = (mString ||| mName) := by cases k <;> first | rfl | exact absurd rfl hk
+  have hw : win T ⟨pfx.length, n', k.pending, f :: fs⟩ n' = k.wrap body := win_mid pfx (k.wrap body) rest n' _ _
+  refine ⟨?_, fun d hd => ?_, ?_⟩
+  · have h1 := handle_addTo shipped_code (text := T) (m := ⟨pfx.length, pfx.length, .WAIT, f :: fs⟩) (q_open k)
+    have h2 := handle_addTo shipped_code (text := T) (m := ⟨pfx.length, pfx.length + 1 + body.length, k.inside, f :: fs⟩)
+      (s_close k hk)
+    show feedAllWith (handle Gen.cfgS T) (k.ch :: (body ++ [k.ch])) _ = _
+    rw [feedAllWith_cons_adv h1, feedAllWith_append_ok (body_run k hk T _ _ body.length body (Nat.le_refl _) hb _),
+      feedAllWith_one, feedWith_adv h2]
+    simp only [n', wrap_length]
+    congr 2
+    omega
+  · rw [handle_emitBefore shipped_code (m := ⟨pfx.length, n', k.pending, f :: fs⟩) (s_next k hk d hd) rfl, hw, hm]
+  · rw [handle_emitAtEnd shipped_code (m := ⟨pfx.length, n', k.pending, f :: fs⟩) (s_end k hk) rfl, hw, hm]
+
+/-- the escape grammar contains the plain payloads and is closed under the two escapes, so it covers
+`q p₁ q q p₂ q` and `q p₁ \ c p₂ q` for payload pieces `p₁`, `p₂` and ANY character `c` -/
+theorem strBody_payload_append (k : QK) (p r : List Char) (hp : ∀ c ∈ p, c ≠ k.ch ∧ c ≠ '\\')
+    (hr : strBody k.ch r = true) : strBody k.ch (p ++ r) = true := by
+  induction p with
+  | nil => exact hr
+  | cons c p' ih =>
+    have hc := hp c (by simp)
+    have ih' := ih fun d hd => hp d (by simp [hd])
+    cases h : p' ++ r with
+    | nil => simp [strBody, hc.1, hc.2, h]
+    | cons d r' =>
+      rw [h] at ih'
+      have h1 : (c == '\\') = false := by simpa using hc.2
+      have h2 : (c == k.ch) = false := by simpa using hc.1
+      simp [strBody, h, h1, h2, ih']
+
+theorem strBody_shapes (k : QK) (p1 p2 : List Char) (c : Char) (h1 : ∀ c ∈ p1, c ≠ k.ch ∧ c ≠ '\\')
+    (h2 : ∀ c ∈ p2, c ≠ k.ch ∧ c ≠ '\\') :
+    strBody k.ch (p1 ++ [k.ch, k.ch] ++ p2) = true ∧ strBody k.ch (p1 ++ ['\\', c] ++ p2) = true := by
+  have hp2 : strBody k.ch p2 = true := by
+    have := strBody_payload_append k p2 [] h2 rfl
+    simpa using this
+  constructor
+  · rw [List.append_assoc]
+    apply strBody_payload_append k p1 _ h1
+    have hq : (k.ch == '\\') = false := by simpa using ch_ne_backslash k
+    cases p2 with
+    | nil => simp [strBody, hq]
+    | cons d r => simpa [strBody, hq] using hp2
+  · rw [List.append_assoc]
+    apply strBody_payload_append k p1 _ h1
+    cases p2 with
+    | nil => simp [strBody]
+    | cons d r => simpa [strBody] using hp2
+
+/-- non-vacuity: `'it''s'`, `'a\'b'`, `"x\\"` are single tokens; `'a'b'` is not of the grammar -/
+example : strBody '\'' "it''s".toList = true ∧ strBody '\'' "a\\'b".toList = true ∧ strBody '"' "x\\\\".toList = true ∧
+    strBody '\'' "a'b".toList = false ∧
+    lexesTo (lex Gen.cfgS "'it''s' x".toList) [.single "'it''s'".toList 10, .single ['x'] 2] = true ∧
+    lexesTo (lex Gen.cfgS "'a\\'b'".toList) [.single "'a\\'b'".toList 10] = true := by decide +kernel
+
 end C06
